@@ -7,7 +7,9 @@ use deb822_lossless::{FromDeb822Paragraph, ToDeb822Paragraph};
 use serde_json::{json, Value};
 use std::str::FromStr;
 
-fn render_para(role: &str, present: &[usize], comment: bool, vs: usize) -> String {
+fn render_para(role: &str, present: &[usize], comment: bool, vs: usize) -> String { render_para_n(role, present, comment, vs, 0) }
+/// (the n-th paragraph of a document gets its own package name)
+fn render_para_n(role: &str, present: &[usize], comment: bool, vs: usize, n: usize) -> String {
     let mut t = String::new();
     if role == "neither" { return "X-Other: value\nX-More: v\n".into(); }
     let tab = table(role);
@@ -15,6 +17,8 @@ fn render_para(role: &str, present: &[usize], comment: bool, vs: usize) -> Strin
     for (i, (name, _m, vals)) in tab.iter().enumerate() {
         if !present.contains(&(i + 1)) { continue; }
         let v = vals[(vs.max(1) - 1).min(vals.len() - 1)];
+        let named = if n > 0 && (*name == "Source" || *name == "Package") { format!("{}{}", v, n + 1) } else { v.to_string() };
+        let v = named.as_str();
         if comment && first && role != "copyright_header" { t.push_str("# a comment\n"); }
         let mut lines = v.split('\n');
         let l0 = lines.next().unwrap_or("");
@@ -31,9 +35,9 @@ pub fn render(case: &Value) -> String {
     let blanks = case["blanks"].as_u64().unwrap_or(1) as usize;
     let vs = case["vs"].as_u64().unwrap_or(1) as usize;
     let mut parts = vec![];
-    for p in case["paras"].as_array().unwrap() {
+    for (n, p) in case["paras"].as_array().unwrap().iter().enumerate() {
         let present: Vec<usize> = p["present"].as_array().map(|a| a.iter().map(|x| x.as_u64().unwrap() as usize).collect()).unwrap_or_default();
-        parts.push(render_para(p["role"].as_str().unwrap(), &present, comments, vs));
+        parts.push(render_para_n(p["role"].as_str().unwrap(), &present, comments, vs, n));
     }
     let sep = if comments { format!("{}# between paragraphs\n{}", "\n".repeat(blanks), "\n") } else { "\n".repeat(blanks) };
     parts.join(&sep)
